@@ -30,7 +30,7 @@ def selftest_rat(ctx):
 
 def mc_splinemath(ctx):
     cfg = "MCSplineMath_quick.cfg" if ctx.quick() else "MCSplineMath_thorough.cfg"
-    return run_mc(ctx, "MCSplineMath", cfg, workers=16, timeout=3000, heap="12g")
+    return run_mc(ctx, "MCSplineMath", cfg, workers=12, timeout=3000, heap="8g", coverage=False)
 
 
 def bcar_for(order, r):
@@ -431,7 +431,18 @@ class ProbTable:
         k = (order, n, v)
         if k not in self.t:
             r = gen.Rng(self.seed * 7919 + order * 1000 + n * 10 + v)
-            pr = r.problem(order, C10_DIM[order], n, tdom="any" if v == 2 else "W", dcls=r.choice(["grid", "real"]))
+            if v == 1:
+                # variant 1: every size is a PREFIX of one master problem (dropping trailing waypoints keeps the leading
+                # durations bit-identical - the history a cache keyed on "durations unchanged" gets wrong)
+                if (order, "master") not in self.t:
+                    rm = gen.Rng(self.seed * 7919 + order * 1000 + 7)
+                    self.t[(order, "master")] = rm.problem(order, C10_DIM[order], 4, tdom="W", dcls=rm.choice(["grid", "real"]))
+                m = self.t[(order, "master")]
+                pr = dict(m)
+                pr["T"] = m["T"][:n]
+                pr["P"] = m["P"][:n + 1]
+            else:
+                pr = r.problem(order, C10_DIM[order], n, tdom="any", dcls=r.choice(["grid", "real"]))
             gc, gt = upstream(r, order, n, C10_DIM[order], "dense")
             self.t[k] = (pr, gc, gt)
         return self.t[k]
@@ -972,3 +983,437 @@ def plan_C17(ctx):
 
 
 PLANS.update({"C17": plan_C17})
+
+
+# ====================================================================== SplineOptimizer family (C07, C08, C09, C15, C16, C19, C12)
+FAMILIES = (("quad", "id"), ("quad", "lift"), ("sq", "id"), ("sq", "lift"))
+
+
+def mc_optmath(ctx):
+    return run_mc(ctx, "MCOptMath", "MCOptMath_quick.cfg" if ctx.quick() else "MCOptMath_thorough.cfg", workers=12, timeout=3000, heap="8g", coverage=False)
+
+
+def mcoptobj_cfg(maxops, emit, broken="none", ids="{1, 2}"):
+    return ("SPECIFICATION Spec\nCONSTANTS\n  Ids = %s\n  Maps = {1}\n  MaxOps = %d\n  Emit = %s\n  Broken = \"%s\"\nINVARIANT Inv\nCONSTRAINT EmitScripts\n"
+            "VIEW View\nCHECK_DEADLOCK FALSE\n" % (ids, maxops, "TRUE" if emit else "FALSE", broken))
+
+
+def mc_optobj(ctx):
+    run_mc_text(ctx, "MCOptObj", mcoptobj_cfg(4 if ctx.quick() else 6, False), "MCOptObj", workers=12, heap="10g")
+    for b in ("flagsnodirty", "smapnodirty", "verbatim", "sharews"):
+        run_mc_text(ctx, "MCOptObj", mcoptobj_cfg(4, False, b), "broken twin optobj:" + b, workers=4, expect_violation=True)
+
+
+def opt_finish(ctx, batches, env, rule, props, exe=None, level="model_checking"):
+    exe = exe or vbuild.opt_replay()
+    ctx.family, ctx.tracespec, ctx.env_flags = "opt", "TraceOpt", env
+    ctx.samples = ctx.samples or [[c for c in b if c.get("op") in ("opt_new", "set_flags", "evaluate")][:3] for b in batches[:2]]
+    replay_and_validate(ctx, exe, batches, "TraceOpt", env)
+    return finish(ctx, level, rule, TRUSTED,
+                  ["time variables in [-1/2, 1/2] so that the decoded durations are well scaled (DESIGN s4); at most 40 unknowns per exact solve",
+                   "user cost functors from the polynomial family of harness/opt_iface.hpp (depends on p, v, a, j, s, global time, segment index)"],
+                  props_judged=props)
+
+
+def flag_list(bits):
+    return [bool((bits >> k) & 1) for k in range(8)]
+
+
+def c07_execs(r, quick, rec):
+    execs = []
+    k = 0
+    reps = 1 if quick else 20
+    for rep in range(reps):
+        for order in gen.ORDERS:
+            for bits in range(256):
+                k += 1
+                N = 1 + (k + rep) % 4
+                D = 1 + (k // 4 + rep) % 4
+                if (order + 1) * N > 40:
+                    N = 40 // (order + 1)
+                tm, sm = FAMILIES[(k // 16 + rep) % 4]
+                K = (1, 2, 3, 8, 64)[(k + 2 * rep) % 5]
+                if K == 64 and N * D > 6:
+                    K = 8 if rep % 2 == 0 else 64
+                p = gen.OptProblem(r, order, D, N, tm, sm, flags=flag_list(bits), K=K, rho=(0.0, 0.5, 2.0)[(k + rep) % 3])
+                cmds = [{"op": "reset"}] + p.cmds_setup(1, how="durs" if k % 3 else "pts")
+                for e in range(1 if quick else 2):
+                    cmds.append({"op": "evaluate", "obj": 1, "x": gen.hv(p.x(r)), "ws": (0, 3)[(k + e) % 2], "costs": gen.cost_params(r),
+                                 "overload": 3 if (k + e) % 4 else 2, "rec": bool(rec and K <= 8)})
+                execs.append((N * D * (order + 1) * (K + 4), cmds))
+    return execs
+
+
+def plan_C07(ctx):
+    selftest_rat(ctx)
+    mc_optmath(ctx)
+    r = gen.Rng(ctx.seed * 1000003 + 7)
+    batches = balanced(c07_execs(r, ctx.quick(), False), 48 if ctx.quick() else 128)
+    return opt_finish(ctx, batches, {},
+                      "all 256 flag settings x 3 orders, with N 1..4, dimension 1..4, {default, user} time map x {identity, reduced-dof user} spatial "
+                      "map, energy weight {0, 0.5, 2}, steps {1,2,3,8,64} and both overloads cycled; cost functors depend on p, v, a, j, s, global "
+                      "time and segment index; every gradient component compared with the exact gradient of the exact cost (OptMath!Grad, itself "
+                      "checked against exact central differences by TLC on a grid)", {"C07"})
+
+
+def plan_C08(ctx):
+    selftest_rat(ctx)
+    mc_optmath(ctx)
+    r = gen.Rng(ctx.seed * 1000003 + 8)
+    batches = balanced(c07_execs(r, ctx.quick(), True), 48 if ctx.quick() else 128)
+    return opt_finish(ctx, batches, {},
+                      "as C07, with a recording running-cost functor: returned cost against time + waypoint + K-step trapezoid + weighted energy "
+                      "computed exactly; every recorded sample (segment index, local time k T/K, global time, p v a j s) against the exact minimiser; "
+                      "sample count N (K+1) and each (segment, k) exactly once; two-cost overload = three-cost with zero waypoint cost (TLC theorem)",
+                      {"C08"})
+
+
+# ---------------------------------------------------------------------- C09
+def c09_config_execs(r, quick):
+    execs = []
+    k = 0
+    for order in gen.ORDERS:
+        for bits in range(256):
+            for N in range(1, 7):
+                for D in (1, 2, 3):
+                    for sm in ("id", "lift"):
+                        k += 1
+                        if quick and (k + bits) % 8 != 0:
+                            continue
+                        tm = ("quad", "sq")[(k // 3) % 2]
+                        p = gen.OptProblem(r, order, D, N, tm, sm, flags=flag_list(bits), K=1, rho=0.0)
+                        cmds = [{"op": "reset"}] + p.cmds_setup(1)
+                        cmds += [{"op": "get_dim", "obj": 1}, {"op": "init_guess", "obj": 1},
+                                 {"op": "evaluate", "obj": 1, "x": gen.hv(p.x(r, "marker")), "ws": 0, "costs": {"ta": gen.hx(1.0)}, "overload": 2},
+                                 {"op": "get_optimal", "obj": 1},
+                                 {"op": "evaluate", "obj": 1, "x": gen.hv(p.x(r)), "ws": 2, "costs": {"ta": gen.hx(1.0)}, "overload": 3}]
+                        execs.append((N * D + 3, cmds))
+    return execs
+
+
+OPT_FLAGSETS = {0: [False, True, False, False, False, False, True, False], 1: [True, False, True, True, True, True, False, True]}
+
+
+def expand_opt_script(r, hist, order, D, tm, sm, exact):
+    """abstract history from MCOptObj -> concrete commands; problems v=1 (N=1), v=2 (N=2), v=3 (N=2, invalid: a NaN waypoint)"""
+    cmds = [{"op": "reset"}]
+    probs = {}
+    cur = {}       # obj -> OptProblem-like state (problem, flags, smap user?, tmap user?)
+    maps = set()
+
+    def problem(v):
+        if v not in probs:
+            rr = gen.Rng(1000 + v * 7 + order + D)
+            probs[v] = gen.OptProblem(rr, order, D, 1 if v == 1 else 2, tm, sm, flags=[False] * 8, K=2, rho=0.5)
+        return probs[v]
+    for a in hist:
+        op = a["op"]
+        if op == "opt_new":
+            cmds.append({"op": "opt_new", "obj": a["obj"], "order": order, "dim": D, "tm": tm, "sm": sm})
+            cur[a["obj"]] = {"p": None, "flags": [False] * 8, "valid": False, "um": False, "ut": False}
+        elif op == "set_init":
+            p = problem(a["v"])
+            c = p.cmd_init(a["obj"], "durs")
+            if a["v"] == 3:
+                c["P"][1][0] = "nan"
+            cmds.append(c)
+            cur[a["obj"]].update({"p": p, "valid": a["v"] != 3})
+        elif op == "set_init_empty":
+            p = problem(1)
+            c = p.cmd_init(a["obj"], "pts")
+            c["tp"] = []
+            cmds.append(c)
+            cur[a["obj"]]["valid"] = False
+        elif op == "set_flags":
+            cmds.append({"op": "set_flags", "obj": a["obj"], "flags": OPT_FLAGSETS[a["f"]]})
+            cur[a["obj"]]["flags"] = OPT_FLAGSETS[a["f"]]
+        elif op in ("set_smap", "set_tmap"):
+            cmds.append({"op": op, "obj": a["obj"], "map": a["map"]})
+            cur[a["obj"]]["um" if op == "set_smap" else "ut"] = a["map"] != 0
+        elif op == "map_new":
+            # one abstract user map = one user time map and one user spatial map (ids 1 and 101)
+            cmds.append({"op": "tmap_new", "map": a["map"], "scale": gen.hx(0.75)})
+            maps.add(a["map"])
+        elif op == "map_mutate":
+            cmds.append({"op": "tmap_set", "map": a["map"], "scale": gen.hx(r.choice([0.5, 1.25, 1.5]))})
+        elif op in ("get_dim", "init_guess"):
+            st = cur[a["obj"]]
+            if st["p"] is not None and (op == "get_dim" or st["valid"]):
+                cmds.append({"op": op, "obj": a["obj"]})
+        elif op == "evaluate":
+            st = cur[a["obj"]]
+            if st["p"] is not None and st["valid"]:
+                cmds.append(opt_eval_cmd(r, a["obj"], st, sm, tm, 0 if a["own"] else 7))
+        elif op in ("opt_copy", "opt_assign"):
+            cmds.append({"op": op, "dst": a["dst"], "src": a["src"]})
+            cur[a["dst"]] = dict(cur[a["src"]])
+        elif op == "opt_destroy":
+            cmds.append({"op": "opt_destroy", "obj": a["obj"]})
+            del cur[a["obj"]]
+    # observation suffix: every live, validly configured optimizer is queried and evaluated with its built-in workspace
+    for oid in sorted(cur):
+        st = cur[oid]
+        cmds.append({"op": "verdict", "obj": oid})
+        if st["p"] is not None:
+            cmds.append({"op": "get_dim", "obj": oid})
+            if st["valid"]:
+                cmds.append({"op": "init_guess", "obj": oid})
+                cmds.append(opt_eval_cmd(r, oid, st, sm, tm, 0))
+        cmds.append({"op": "get_optimal", "obj": oid})
+    return cmds
+
+
+def opt_eval_cmd(r, oid, st, sm, tm, ws):
+    p = st["p"]
+    # the spatial map in use decides the layout: a user spatial map exists only in the "lift" families (there it has the same shape as the default)
+    n, _, _ = gen.opt_layout(p.order, p.D, p.N, st["flags"], sm)
+    rr = gen.Rng(n * 31 + p.N)
+    x = [rr.dyadic(-0.5, 0.5, 8) for _ in range(p.N)] + [rr.dyadic(-4, 4, 4) for _ in range(n - p.N)]
+    return {"op": "evaluate", "obj": oid, "x": gen.hv(x), "ws": ws, "costs": gen.cost_params(gen.Rng(5)), "overload": 3}
+
+
+def opt_history_execs(ctx, r, nsample, families, exact=True, maxops=3):
+    from vcheck import tlc_generate
+    scripts = tlc_generate(ctx, "MCOptObj", mcoptobj_cfg(maxops, True), "optobj", workers=1, timeout=900)
+    groups = {}
+    for h in scripts:
+        last = h[-1]
+        groups.setdefault((last["op"], len(h), last.get("own", ""), last.get("map", "")), []).append(h)
+    per = max(1, nsample // max(1, len(groups)))
+    execs = []
+    k = 0
+    for g in sorted(groups, key=str):
+        hs = groups[g]
+        r.shuffle(hs)
+        for h in hs[:per]:
+            k += 1
+            tm, sm = families[k % len(families)]
+            order = gen.ORDERS[k % 3]
+            D = (2, 3, 1)[k % 3] if sm == "lift" else (1, 2, 3)[k % 3]
+            cmds = expand_opt_script(r, h, order, D, tm, sm, exact)
+            execs.append((len(cmds) * D, cmds))
+    return execs
+
+
+def plan_C09(ctx):
+    selftest_rat(ctx)
+    mc_optmath(ctx)
+    mc_optobj(ctx)
+    r = gen.Rng(ctx.seed * 1000003 + 9)
+    execs = c09_config_execs(r, ctx.quick())
+    hexecs = opt_history_execs(ctx, r, 200 if ctx.quick() else 5000, FAMILIES)
+    ctx.samples = [[c for c in execs[0][1] if c.get("op") in ("set_flags", "get_dim", "evaluate")][:3]]
+    b1 = balanced(execs, 48 if ctx.quick() else 128)
+    exe = vbuild.opt_replay()
+    ctx.family, ctx.tracespec, ctx.env_flags = "opt", "TraceOpt", {"VJ_EXACT": "0"}
+    replay_and_validate(ctx, exe, b1, "TraceOpt", {"VJ_EXACT": "0"})
+    return opt_finish(ctx, balanced(hexecs, 24 if ctx.quick() else 64), {}, 
+                      "layout laws are TLC theorems on a grid (MCOptMath) and the lazily rebuilt layout cache is explored exhaustively with every "
+                      "setter / reader / copy interleaving (MCOptObj, 4 broken twins rejected); on the real class all 256 flag settings x 3 orders x "
+                      "N 1..6 x dimension 1..3 x {identity, reduced-dof} spatial map (quick: a 1/8 sample containing every flag setting x order): "
+                      "getDimension, initial guess (decodes to the reference; exact parts bit-identical), evaluation of a marker vector (decoded "
+                      "durations / waypoints / boundary blocks, pinned quantities bit-identical to the reference, getOptimalSpline is that spline); "
+                      "plus one script per transition of the reconfiguration model", {"C09"})
+
+
+def plan_C15(ctx):
+    selftest_rat(ctx)
+    mc_optobj(ctx)
+    r = gen.Rng(ctx.seed * 1000003 + 15)
+    # stateful map families: a dangling pointer into a destroyed (poisoned) optimizer reads garbage deterministically
+    hexecs = opt_history_execs(ctx, r, 400 if ctx.quick() else 12000, (("sq", "lift"), ("sq", "id"), ("quad", "lift"), ("sq", "lift")), maxops=4 if not ctx.quick() else 3)
+    # spline-object copies
+    tab = ProbTable(ctx.seed)
+    sexecs = []
+    for order in gen.ORDERS:
+        scripts = [h for h in tlc_generate_spline(ctx, order) if any(a["op"] in ("copy", "assign") for a in h)]
+        r.shuffle(scripts)
+        for h in scripts[:80 if ctx.quick() else 2000]:
+            cmds = expand_spline_script(tab, order, h)
+            sexecs.append((len(cmds), cmds))
+    ctx.family, ctx.tracespec, ctx.env_flags = "spline", "TraceSpline", {"VJ_KEEPMEMO": "1"}
+    replay_and_validate(ctx, vbuild.spline_replay(), balanced(sexecs, 16 if ctx.quick() else 48), "TraceSpline", {"VJ_KEEPMEMO": "1"}, label="s")
+    return opt_finish(ctx, balanced(hexecs, 32 if ctx.quick() else 96), {},
+                      "ownership model explored exhaustively by TLC (construct, copy-construct, assign incl. self and onto an optimizer owning a "
+                      "workspace, set maps, evaluate with built-in / external workspace, mutate user map, destroy; NoDangling, NoSharedWorkspace; "
+                      "broken twins 'verbatim pointer copy' and 'shared workspace' rejected); one script per transition, replayed with STATEFUL "
+                      "default and user maps on optimizers placement-constructed in an arena that is overwritten with 0xA5 on destruction; every "
+                      "evaluation of every live object must equal the exact cost/gradient of ITS OWN configuration, built-in workspaces have "
+                      "distinct addresses; spline-object copies judged by bit identity", {"C15", "C07", "C08", "C09", "C10"})
+
+
+# ---------------------------------------------------------------------- C16
+def c16_execs(r, quick):
+    import math
+    execs = []
+    one_ms = 1e-3
+    durvals = [("ok", 0.5), ("1ms", one_ms), ("below", math.nextafter(one_ms, 0.0)), ("above", math.nextafter(one_ms, 1.0)), ("half", 0.5e-3), ("zero", 0.0),
+               ("neg", -0.25), ("nan", float("nan")), ("inf", float("inf")), ("ninf", float("-inf"))]
+    bad = [float("nan"), float("inf"), float("-inf")]
+    for order in gen.ORDERS:
+        for N in (1, 2, 3):
+            for D in (1, 2, 3):
+                if quick and (order + N + D) % 2:
+                    continue
+                fam = FAMILIES[(order + N + D) % 4]
+                base = gen.OptProblem(r, order, D, N, fam[0], fam[1])
+                cmds = [{"op": "reset"}, {"op": "opt_new", "obj": 1, "order": order, "dim": D, "tm": fam[0], "sm": fam[1]}]
+
+                def init(mod, how="durs"):
+                    c = base.cmd_init(1, how)
+                    mod(c)
+                    cmds.append(c)
+                init(lambda c: None)
+                # every single placement of a non-finite value
+                for bv in bad:
+                    init(lambda c: c.__setitem__("t0", gen.hx(bv)))
+                    for i in range(N):
+                        init(lambda c: c["T"].__setitem__(i, gen.hx(bv)))
+                    for i in range(N + 1):
+                        for col in range(D):
+                            init(lambda c: c["P"][i].__setitem__(col, gen.hx(bv)))
+                    for f in ("sv", "sa", "sj", "ev", "ea", "ej"):
+                        for col in range(D):
+                            init(lambda c: c["bc"][f].__setitem__(col, gen.hx(bv)))
+                    # the time-point overload
+                    for i in range(N + 1):
+                        init(lambda c: c["tp"].__setitem__(i, gen.hx(bv)), "pts")
+                # durations on both sides of the one-millisecond threshold, every position
+                for (nm, dv) in durvals:
+                    for i in range(N):
+                        init(lambda c: c["T"].__setitem__(i, gen.hx(dv)))
+                # time points whose difference sits at the threshold
+                for dv in (one_ms, math.nextafter(one_ms, 0.0), 2 * one_ms, 0.0, -0.5):
+                    def mod(c):
+                        tp = [0.0]
+                        for i in range(N):
+                            tp.append(tp[-1] + (dv if i == N - 1 else 0.5))
+                        c["tp"] = gen.hv(tp)
+                    init(mod, "pts")
+                # size mismatches
+                init(lambda c: c.__setitem__("P", c["P"][:-1]))
+                init(lambda c: c.__setitem__("P", c["P"] + [c["P"][0]]))
+                init(lambda c: (c.__setitem__("T", []), c.__setitem__("P", c["P"][:1])))
+                init(lambda c: c.__setitem__("T", c["T"] + [gen.hx(0.5)]))
+                init(lambda c: c.__setitem__("tp", []), "pts")
+                init(lambda c: c.__setitem__("tp", c["tp"][:1]), "pts")
+                # sequences valid / invalid / valid on the same object, with verdict queries in between
+                init(lambda c: None)
+                cmds.append({"op": "verdict", "obj": 1})
+                init(lambda c: c["P"][0].__setitem__(0, "nan"))
+                cmds.append({"op": "verdict", "obj": 1})
+                init(lambda c: c.__setitem__("tp", []), "pts")
+                cmds.append({"op": "verdict", "obj": 1})
+                init(lambda c: None, "pts")
+                cmds.append({"op": "verdict", "obj": 1})
+                if not quick:      # pairs of faults
+                    for _ in range(40):
+                        def mod2(c):
+                            for _k in range(2):
+                                w = r.choice(["t0", "T", "P", "bc"])
+                                bvv = gen.hx(r.choice(bad + [0.0, -1.0, 0.5e-3]))
+                                if w == "t0":
+                                    c["t0"] = bvv
+                                elif w == "T":
+                                    c["T"][r.randrange(N)] = bvv
+                                elif w == "P":
+                                    c["P"][r.randrange(N + 1)][r.randrange(D)] = bvv
+                                else:
+                                    c["bc"][r.choice(["sv", "sa", "sj", "ev", "ea", "ej"])][r.randrange(D)] = bvv
+                        init(mod2)
+                execs.append((len(cmds), cmds))
+    return execs
+
+
+def c16_ppoly_execs(r, quick):
+    execs = []
+    for ord_ in PP_ORDS:
+        for dim in (1, 2, 3, 4):
+            cmds = [{"op": "reset"}]
+            oid = 0
+            for nseg in (1, 3):
+                for nc in (1, 4, 8, 9, 12, 13):
+                    bp, C = pp_data(r, dim, nseg, nc)
+                    variants = [("ok", bp, C, nc), ("no_bp", [], [], nc), ("one_bp", bp[:1], [], nc), ("rows_short", bp, C[:-1], nc), ("rows_long", bp, C + [C[0]], nc),
+                                ("nc_zero", bp, [], 0), ("nc_wrong", bp, C, nc + 1)]
+                    for (nm, b, c, n) in variants:
+                        oid += 1
+                        cmds.append(pp_ctor(oid, dim, ord_, b, c, n))
+                        for i in (-2, -1, 0, nseg - 1, nseg, nseg + 1):
+                            cmds.append({"op": "at", "obj": oid, "i": i})
+                        cmds.append({"op": "eval", "obj": oid, "t": gen.hx(bp[0] + 0.01), "k": 0})
+                        # valid -> invalid -> valid on the same object
+                        cmds.append(pp_ctor(oid, dim, ord_, bp, C, nc, op="update"))
+                        cmds.append(pp_ctor(oid, dim, ord_, bp[:1], [], nc, op="update"))
+                        cmds.append({"op": "at", "obj": oid, "i": 0})
+                        cmds.append(pp_ctor(oid, dim, ord_, b, c, n, op="update"))
+                        cmds.append({"op": "info", "obj": oid})
+            execs.append((len(cmds), cmds))
+    return execs
+
+
+def plan_C16(ctx):
+    selftest_rat(ctx)
+    mc_optobj(ctx)
+    pp_mc(ctx, lookup=False)
+    r = gen.Rng(ctx.seed * 1000003 + 16)
+    pexecs = c16_ppoly_execs(r, ctx.quick()) + pp_lifecycle_execs(ctx, r, 100 if ctx.quick() else 2000)
+    ctx.family, ctx.tracespec, ctx.env_flags = "ppoly", "TracePPoly", {}
+    replay_and_validate(ctx, vbuild.ppoly_replay(), balanced(pexecs, 16 if ctx.quick() else 48), "TracePPoly", {}, label="p")
+    batches = balanced(c16_execs(r, ctx.quick()), 32 if ctx.quick() else 96)
+    return opt_finish(ctx, batches, {"VJ_EXACT": "0"},
+                      "optimizer: for every order x N 1..3 x dimension 1..3, every single placement of NaN / +Inf / -Inf in the start time, each "
+                      "duration, each waypoint coordinate, each boundary field (incl. those the order does not use) and each time point; durations at "
+                      "1 ms, one ulp either side, half, zero, negative, non-finite, in every position and through both overloads; size mismatches; "
+                      "valid/invalid/valid sequences on one object (thorough: random pairs of faults); return value, isValid, operator bool, "
+                      "message presence and checkValidity judged against Valid(inputs, order); PPolyND: every rejection kind on fixed and dynamic "
+                      "ORDER, valid/rejected/valid updates, at(i) for i in -2..nseg+1",
+                      {"C16"})
+
+
+# ---------------------------------------------------------------------- C19
+def c19_execs(r, quick):
+    execs = []
+    k = 0
+    for rep in range(1 if quick else 16):
+        for order in gen.ORDERS:
+            for (N, D) in ((1, 1), (2, 1), (2, 2), (1, 2), (3, 1)):
+                for fam in FAMILIES:
+                    k += 1
+                    bits = r.randrange(256)
+                    p = gen.OptProblem(r, order, D, N, fam[0], fam[1], flags=flag_list(bits), K=r.choice([1, 2, 4]), rho=r.choice([0.0, 0.5]))
+                    cmds = [{"op": "reset"}] + p.cmds_setup(1)
+                    lies = [None,
+                            (1, r.randrange(N), 0, r.choice([0.5, -1.0])), (2, r.randrange(N + 1), r.randrange(D), r.choice([0.5, 2.0])),
+                            (3, r.randrange(N), r.randrange(D), 1.0), (4, r.randrange(N), r.randrange(D), 2.0), (5, r.randrange(N), 0, 1.0),
+                            (6, r.randrange(N), r.randrange(D), 4.0), (4, r.randrange(N), r.randrange(D), 1e-9), (1, 0, 0, 1e-10)]
+                    for li, lie in enumerate(lies if not quick else [None, lies[1 + k % 6], lies[7 + k % 2]]):
+                        c = {"op": "check_grad", "obj": 1, "x": gen.hv(p.x(r)), "ws": (0, 4)[(k + li) % 2], "costs": gen.cost_params(r, lie),
+                             "overload": 2 if (lie and lie[0] != 2 and (k + li) % 3 == 0) else 3}
+                        if (k + li) % 2:
+                            c["eps"], c["tol"] = gen.hx(1e-5), gen.hx(1e-3)
+                        cmds.append(c)
+                    cmds.append({"op": "evaluate", "obj": 1, "x": gen.hv(p.x(r)), "ws": 0, "costs": gen.cost_params(r), "overload": 3})
+                    execs.append((len(cmds) * N * D * (order + 1), cmds))
+    return execs
+
+
+def plan_C19(ctx):
+    selftest_rat(ctx)
+    run_mc(ctx, "SelfCheck", "SelfCheck.cfg", workers=4, timeout=600)
+    run_mc_text(ctx, "SelfCheck", open(os.path.join(vbuild.VERIF, "spec", "SelfCheck.cfg")).read().replace('Broken = "none"', 'Broken = "norestore"'),
+                "broken twin selfcheck:norestore", workers=2, expect_violation=True)
+    r = gen.Rng(ctx.seed * 1000003 + 19)
+    batches = balanced(c19_execs(r, ctx.quick()), 32 if ctx.quick() else 96)
+    return opt_finish(ctx, batches, {},
+                      "the self-check procedure is a small TLA+ state machine (perturb +, evaluate, perturb -, evaluate, restore, final evaluation "
+                      "at x) checked by TLC (broken twin 'no restore' rejected); on the real class: 3 orders x small (N, D) x 4 map families x random "
+                      "flags, correct functors and functors with one wrong claimed partial derivative in the time, waypoint or running cost (p, v, a "
+                      "or explicit-time component), far above and far below the tolerance, both overloads, default and explicit eps/tol; analytical "
+                      "gradient against the exact pipeline result for the CLAIMED partials, numerical gradient against the exact TRUE gradient "
+                      "(rounding bound eps_mach |cost| / eps), error norms by their definitions, verdict = (norm < tol) and expected verdict wherever "
+                      "the exact quantities separate it from the threshold by 10x, workspace spline afterwards = decode of the checked vector",
+                      {"C19"})
+
+
+PLANS.update({"C07": plan_C07, "C08": plan_C08, "C09": plan_C09, "C15": plan_C15, "C16": plan_C16, "C19": plan_C19})
